@@ -71,6 +71,9 @@ async fn create_stream(h: &mut Harness, c: usize, id: Option<u32>, name: &str) {
     }
     let now = h.sim.now_micros();
     let result = h.clients[c].as_ref().unwrap().create_stream(name, id).await;
+    if !h.perm_gate("create_stream", result.is_ok(), result.as_ref().err()) {
+        return;
+    }
     let name_taken = h.model.streams.values().any(|s| s.name == name);
     let id_taken = id.map(|i| h.model.streams.contains_key(&i)).unwrap_or(false);
     let expect_ok = name_ok(name) && id != Some(0) && !name_taken && !id_taken;
@@ -99,6 +102,9 @@ async fn update_stream(h: &mut Harness, c: usize, stream: &IdRef, name: &str) {
         return;
     }
     let result = h.clients[c].as_ref().unwrap().update_stream(&stream.to_identifier(), name).await;
+    if !h.perm_gate("update_stream", result.is_ok(), result.as_ref().err()) {
+        return;
+    }
     let sid = h.model.stream_id(stream);
     let name_taken_by_other = h.model.streams.values().any(|s| s.name == name && Some(s.id) != sid);
     let expect_ok = sid.is_some() && name_ok(name) && !name_taken_by_other;
@@ -116,6 +122,9 @@ async fn delete_stream(h: &mut Harness, c: usize, stream: &IdRef) {
         return;
     }
     let result = h.clients[c].as_ref().unwrap().delete_stream(&stream.to_identifier()).await;
+    if !h.perm_gate("delete_stream", result.is_ok(), result.as_ref().err()) {
+        return;
+    }
     let sid = h.model.stream_id(stream);
     report_unexpected(h, "delete_stream", sid.is_some(), result.is_ok(), result.as_ref().err());
     if result.is_ok() {
@@ -141,6 +150,9 @@ async fn purge_stream(h: &mut Harness, c: usize, stream: &IdRef) {
         return;
     }
     let result = h.clients[c].as_ref().unwrap().purge_stream(&stream.to_identifier()).await;
+    if !h.perm_gate("purge_stream", result.is_ok(), result.as_ref().err()) {
+        return;
+    }
     let sid = h.model.stream_id(stream);
     report_unexpected(h, "purge_stream", sid.is_some(), result.is_ok(), result.as_ref().err());
     if result.is_ok() {
@@ -165,6 +177,9 @@ async fn create_topic(h: &mut Harness, c: usize, stream: &IdRef, id: Option<u32>
         .unwrap()
         .create_topic(&stream.to_identifier(), name, partitions, compression_of(compression), replication, id, expiry_to_sdk(expiry), max_size_to_sdk(max_size))
         .await;
+    if !h.perm_gate("create_topic", result.is_ok(), result.as_ref().err()) {
+        return;
+    }
     let sid = h.model.stream_id(stream);
     let size = h.model.effective_max_size(max_size);
     if size.is_err() {
@@ -218,6 +233,9 @@ async fn update_topic(h: &mut Harness, c: usize, stream: &IdRef, topic: &IdRef, 
         .unwrap()
         .update_topic(&stream.to_identifier(), &topic.to_identifier(), name, compression_of(compression), replication, expiry_to_sdk(expiry), max_size_to_sdk(max_size))
         .await;
+    if !h.perm_gate("update_topic", result.is_ok(), result.as_ref().err()) {
+        return;
+    }
     let ids = h.model.topic_ids(stream, topic);
     let size = h.model.effective_max_size(max_size);
     if size.is_err() && ids.is_some() {
@@ -253,6 +271,9 @@ async fn delete_topic(h: &mut Harness, c: usize, stream: &IdRef, topic: &IdRef) 
         return;
     }
     let result = h.clients[c].as_ref().unwrap().delete_topic(&stream.to_identifier(), &topic.to_identifier()).await;
+    if !h.perm_gate("delete_topic", result.is_ok(), result.as_ref().err()) {
+        return;
+    }
     let ids = h.model.topic_ids(stream, topic);
     report_unexpected(h, "delete_topic", ids.is_some(), result.is_ok(), result.as_ref().err());
     if result.is_ok() {
@@ -269,6 +290,9 @@ async fn purge_topic(h: &mut Harness, c: usize, stream: &IdRef, topic: &IdRef) {
         return;
     }
     let result = h.clients[c].as_ref().unwrap().purge_topic(&stream.to_identifier(), &topic.to_identifier()).await;
+    if !h.perm_gate("purge_topic", result.is_ok(), result.as_ref().err()) {
+        return;
+    }
     let ids = h.model.topic_ids(stream, topic);
     report_unexpected(h, "purge_topic", ids.is_some(), result.is_ok(), result.as_ref().err());
     if result.is_ok() {
@@ -286,6 +310,9 @@ async fn create_partitions(h: &mut Harness, c: usize, stream: &IdRef, topic: &Id
         return;
     }
     let result = h.clients[c].as_ref().unwrap().create_partitions(&stream.to_identifier(), &topic.to_identifier(), count).await;
+    if !h.perm_gate("create_partitions", result.is_ok(), result.as_ref().err()) {
+        return;
+    }
     let ids = h.model.topic_ids(stream, topic);
     let expect_ok = ids.is_some() && (1..=1000).contains(&count);
     report_unexpected(h, "create_partitions", expect_ok, result.is_ok(), result.as_ref().err());
@@ -297,7 +324,9 @@ async fn create_partitions(h: &mut Harness, c: usize, stream: &IdRef, topic: &Id
                 t.partitions.insert(p, MPartition { id: p, ..Default::default() });
             }
             t.balanced_history.clear();
+            h.rotation.clear();
             *h.stats.ops_ok.entry("create_partitions").or_insert(0) += 1;
+            crate::harness_grp::check_groups_of_topic(h, c, sid, tid).await;
         }
     }
 }
@@ -307,6 +336,9 @@ async fn delete_partitions(h: &mut Harness, c: usize, stream: &IdRef, topic: &Id
         return;
     }
     let result = h.clients[c].as_ref().unwrap().delete_partitions(&stream.to_identifier(), &topic.to_identifier(), count).await;
+    if !h.perm_gate("delete_partitions", result.is_ok(), result.as_ref().err()) {
+        return;
+    }
     let ids = h.model.topic_ids(stream, topic);
     let expect_ok = ids.is_some() && (1..=1000).contains(&count);
     report_unexpected(h, "delete_partitions", expect_ok, result.is_ok(), result.as_ref().err());
@@ -319,7 +351,9 @@ async fn delete_partitions(h: &mut Harness, c: usize, stream: &IdRef, topic: &Id
                 t.partitions.remove(&p);
             }
             t.balanced_history.clear();
+            h.rotation.clear();
             *h.stats.ops_ok.entry("delete_partitions").or_insert(0) += 1;
+            crate::harness_grp::check_groups_of_topic(h, c, sid, tid).await;
         }
     }
 }
@@ -398,6 +432,9 @@ fn compare_topic_details(h: &mut Harness, sid: u32, t: &MTopic, d: &iggy::models
 
 pub async fn check_topic(h: &mut Harness, c: usize, stream: &IdRef, topic: &IdRef) {
     let result = h.clients[c].as_ref().unwrap().get_topic(&stream.to_identifier(), &topic.to_identifier()).await;
+    if !h.perm_gate("get_topic", result.is_ok(), result.as_ref().err()) {
+        return;
+    }
     let ids = h.model.topic_ids(stream, topic);
     match (result, ids) {
         (Ok(Some(d)), Some((sid, tid))) => {
@@ -414,6 +451,9 @@ pub async fn check_topic(h: &mut Harness, c: usize, stream: &IdRef, topic: &IdRe
 
 pub async fn check_topics_listing(h: &mut Harness, c: usize, stream: &IdRef) {
     let result = h.clients[c].as_ref().unwrap().get_topics(&stream.to_identifier()).await;
+    if !h.perm_gate("get_topics", result.is_ok(), result.as_ref().err()) {
+        return;
+    }
     let sid = h.model.stream_id(stream);
     match (result, sid) {
         (Ok(list), Some(sid)) => {
@@ -437,6 +477,9 @@ pub async fn check_topics_listing(h: &mut Harness, c: usize, stream: &IdRef) {
 
 pub async fn check_stream(h: &mut Harness, c: usize, stream: &IdRef) {
     let result = h.clients[c].as_ref().unwrap().get_stream(&stream.to_identifier()).await;
+    if !h.perm_gate("get_stream", result.is_ok(), result.as_ref().err()) {
+        return;
+    }
     let sid = h.model.stream_id(stream);
     match (result, sid) {
         (Ok(Some(d)), Some(sid)) => {
@@ -475,6 +518,9 @@ pub async fn check_stream(h: &mut Harness, c: usize, stream: &IdRef) {
 
 pub async fn check_streams_listing(h: &mut Harness, c: usize) {
     let result = h.clients[c].as_ref().unwrap().get_streams().await;
+    if !h.perm_gate("get_streams", result.is_ok(), result.as_ref().err()) {
+        return;
+    }
     match result {
         Ok(list) => {
             let mut got: Vec<(u32, String, u32)> = list.iter().map(|s| (s.id, s.name.clone(), s.topics_count)).collect();
